@@ -59,6 +59,8 @@ class Config:
         self.inv32 = rng.random() < 0.25
         # training loop that keeps the .grad tensors alive between iterations (zero_grad(set_to_none=False))
         self.keepgrad = rng.random() < 0.3
+        # factors stored in float32 (the dtype the decompositions run in: `.to(float32)` is then no copy)
+        self.fac32 = rng.random() < 0.25
         # checkpoints are loaded into a preconditioner constructed with different constant hyper-parameters
         self.perturb_ctor = rng.random() < 0.5
         self.ops = []
@@ -79,6 +81,7 @@ class Config:
                 'accum': self.accum, 'hook': self.hook, 'arch': self.arch, 'batch': self.batch,
                 'nest': getattr(self, 'nest', False), 'inv32': getattr(self, 'inv32', False),
                 'keepgrad': getattr(self, 'keepgrad', False), 'spike': getattr(self, 'spike', None),
+                'inv16': getattr(self, 'inv16', False), 'fac32': getattr(self, 'fac32', False),
                 'perturb_ctor': getattr(self, 'perturb_ctor', False),
                 'hyper': {k: (str(v) if not isinstance(v, list) else [str(x) for x in v]) for k, v in self.hyper.items()},
                 'ops': list(self.ops), 'seed': self.seed, 'sched_seed': getattr(self, 'sched_seed', None),
@@ -318,7 +321,9 @@ def make_prog(cfg):
                 assignment_strategy=cfg.strategy, colocate_factors=cfg.colocate,
                 compute_eigenvalue_outer_product=cfg.prediv, compute_method=cfg.method,
                 grad_worker_fraction=cfg.k / cfg.world, symmetry_aware=cfg.sym,
-                inv_dtype=(torch.float32 if getattr(cfg, 'inv32', False) else DT), update_factors_in_hook=cfg.hook,
+                inv_dtype=(torch.bfloat16 if getattr(cfg, 'inv16', False) else (torch.float32 if getattr(cfg, 'inv32', False) else DT)),
+                factor_dtype=(torch.float32 if getattr(cfg, 'fac32', False) else None),
+                update_factors_in_hook=cfg.hook,
                 grad_scaler=(None if getattr(cfg, 'union_of', None) is None
                              else (lambda: 1.0 / cfg.union_of)))
         out = {'rank': rank, 'ops': [], 'cov': {}, 'raw': {}, 'exc': None}
@@ -377,6 +382,13 @@ def make_prog(cfg):
                     loss.backward()
                     state['pass'] += 1 if op == 'f1' else 0
                     model.train(True)
+                elif op == 'F':
+                    # forward-only pass in training mode (e.g. a sanity forward under no_grad): the forward hooks
+                    # run, no backward hook does.  Oracle-only op: not part of the Lean state machine.
+                    model.train(True)
+                    with torch.no_grad():
+                        model(input_for(cfg, rank, state['pass']))
+                    state['pass'] += 1
                 elif op == 's':
                     # DDP-style gradient averaging done by the harness, not recorded
                     w.muted[rank] = True
@@ -505,14 +517,14 @@ def model_line(cfg, rr):
         else:
             ops.append(op)
     es = 8
-    ies = 4 if getattr(cfg, 'inv32', False) else 8
+    ies = 2 if getattr(cfg, 'inv16', False) else (4 if getattr(cfg, 'inv32', False) else 8)
     return (f'precond world={W} layers=' + ','.join(f'{a}x{g}' for a, g in a0['dims'])
             + ' inva=' + ','.join(map(str, a0['inva'])) + ' invg=' + ','.join(map(str, a0['invg']))
             + ' workers=' + ';'.join(','.join(map(str, x)) for x in workers)
             + ' recv=' + ';'.join(','.join(map(str, x)) for x in recv)
             + ' src=' + ';'.join(','.join(map(str, x)) for x in src)
             + f' bi={int(a0["bi"])} bg={int(a0["bg"])} method={cfg.method} prediv={int(cfg.prediv)}'
-            + f' sym={int(cfg.sym)} bucketed={int(a0["bucketed"])} cap={a0["cap"]} fe={es} ie={ies} ge={es}'
+            + f' sym={int(cfg.sym)} bucketed={int(a0["bucketed"])} cap={a0["cap"]} fe={4 if getattr(cfg, "fac32", False) else es} ie={ies} ge={es}'
             + f' accum={cfg.accum} hook={int(cfg.hook)} hyper={hyper_str(cfg.hyper)} ops=' + '|'.join(ops))
 
 
@@ -763,7 +775,7 @@ def compare(ctx, cfg, rr, mo, tol=2e-3, streams=('trace', 'grads', 'ranks', 'mem
                             continue
                         e = relerr(ev.ev_str(ts), got)
                         ctx.compare('precond-factor', dict(case, op_index=i, layer=l, which=which, relerr=e),
-                                    'match', 'match' if e < 1e-9 else f'relerr={e:.3e}')
+                                    'match', 'match' if e < (3e-6 if getattr(cfg, 'fac32', False) else 1e-9) else f'relerr={e:.3e}')
                         # all ranks hold the same factor
                         for r in range(1, W):
                             g2 = recs[r]['factors'][l][idx]
@@ -878,8 +890,11 @@ def run_batch(ctx, cfgs, streams, oracles=(), tol=2e-3, seeds=None, whole_only_o
         for o in oracles:
             if whole or not whole_only_oracles:
                 o(ctx, cfg, rr)
-        lines.append(model_line(cfg, rr))
-        keep.append((cfg, rr))
+        if 'F' in cfg.ops:
+            ctx.count('oracle-only history (forward-only pass)')
+        else:
+            lines.append(model_line(cfg, rr))
+            keep.append((cfg, rr))
         ctx.case(str(cfg.key()), nontrivial=(cfg.world > 1 and sum(1 for o in cfg.ops if o == 's') >= 2),
                  sample=dict(cfg.describe(), sched_seed=seed) if len(cfg.ops) <= 8 else None)
         ctx.count(f'world{cfg.world}')
@@ -910,6 +925,8 @@ def replay_case(ctx, payload, streams, oracles=()):
     cfg.nest = c.get('nest', False)
     cfg.inv32 = c.get('inv32', False)
     cfg.keepgrad = c.get('keepgrad', False)
+    cfg.inv16 = c.get('inv16', False)
+    cfg.fac32 = c.get('fac32', False)
     cfg.spike = tuple(c['spike']) if c.get('spike') else None
     cfg.perturb_ctor = c.get('perturb_ctor', False)
     cfg.arch = [tuple(tuple(x) if isinstance(x, list) else x for x in a) for a in c['arch']]
@@ -954,6 +971,8 @@ def oracle_factors(ctx, cfg, rr, tol=1e-9):
     if ref is None:
         return
     case = cfg.describe()
+    if getattr(cfg, 'fac32', False):
+        tol = max(tol, 3e-6)        # factors stored in float32
     for key, val in ref.items():
         if not isinstance(key, tuple):
             continue
@@ -975,5 +994,5 @@ def oracle_factors(ctx, cfg, rr, tol=1e-9):
                                         f'by {e:.2e}', dict(case, op_index=i, layer=l, which=which), 'factor-recurrence')
                     if relerr(got, got.t()) > 1e-12:
                         return ctx.fail(f'factor {which} of layer {l} is not symmetric', dict(case, op_index=i), 'factor-symmetric')
-                    if torch.linalg.eigvalsh((got + got.t()) / 2).min().item() < -1e-9 * max(1.0, got.abs().max().item()):
+                    if torch.linalg.eigvalsh((got + got.t()) / 2).min().item() < -1000 * tol * max(1.0, got.abs().max().item()):
                         return ctx.fail(f'factor {which} of layer {l} is not positive semi-definite', dict(case, op_index=i), 'factor-psd')
